@@ -6,7 +6,18 @@ from ..model import ir, layout
 from ..model.ir import PRIMS, psize
 
 KEYWORDS = ["class", "int", "new", "namespace"]
-BAD_NAMES = ["1abc", "a-b", "a b", ""]
+# non-symbolic names: the offending character at the first, an inner and the last position x several character classes
+# (a digit is only wrong in front), the one-character and the empty name; GOOD_NAMES are their valid twins
+BAD_NAMES = ["1abc", "a-b", "a b", "", "-abc", ".abc", " abc", "+abc", "#abc", "-", "a.b", "ab-", "ab ", "ab.", "a\u00e9", "\u00e9a", "9"]
+GOOD_NAMES = ["_abc", "a1", "a_b", "A9_"]
+
+
+def _name_cases(n_bad=None):
+    """(name, class label, verdict)"""
+    out = [(k, "keyword", "reject") for k in KEYWORDS[:2]]
+    out += [(b, "not-symbolic", "reject") for b in (BAD_NAMES if n_bad is None else BAD_NAMES[:n_bad])]
+    out += [(g, "symbolic-twin", "accept") for g in GOOD_NAMES]
+    return out
 
 
 def _levels(schema):
@@ -63,6 +74,50 @@ def _find_comp(schema, path):
     return c
 
 
+def _retarget(s, old, new):
+    """every reference to the public type `old` (field/data/dimension types, refs, encoding types, valueRef prefixes)"""
+    def vr(x):
+        if getattr(x, "value_ref", None) and x.value_ref.split(".")[0] == old:
+            x.value_ref = new + "." + x.value_ref.split(".", 1)[1]
+
+    for _, lv in _levels(s):
+        for f in lv.fields:
+            if f.type == old:
+                f.type = new
+            vr(f)
+        for d in lv.data:
+            if d.type == old:
+                d.type = new
+        if getattr(lv, "dim", None) == old:
+            lv.dim = new
+    for _, c in _composites(s):
+        for m in c.members:
+            if isinstance(m, ir.Ref) and m.type == old:
+                m.type = new
+            if isinstance(m, (ir.Enum, ir.SetT)) and m.enc == old:
+                m.enc = new
+            vr(m)
+    for t in s.types:
+        if isinstance(t, (ir.Enum, ir.SetT)) and t.enc == old:
+            t.enc = new
+        vr(t)
+
+
+def _retarget_value(s, enum, oldv, newv):
+    def vr(x):
+        if getattr(x, "value_ref", None) == "%s.%s" % (enum, oldv):
+            x.value_ref = "%s.%s" % (enum, newv)
+
+    for _, lv in _levels(s):
+        for f in lv.fields:
+            vr(f)
+    for _, c in _composites(s):
+        for m in c.members:
+            vr(m)
+    for t in s.types:
+        vr(t)
+
+
 def type_range(prim):
     size, _, signed, fp, _ = PRIMS[prim]
     if fp:
@@ -117,12 +172,12 @@ def edits(base):
             members = tl.fields + tl.groups + tl.data
             members[-1].name = members[0].name
             yield "duplicate-name:level-member", label, "reject", s
-        for kw in KEYWORDS[:2] + BAD_NAMES[:2]:
+        for kw, cls, verdict in _name_cases():
             for kind in ("fields", "groups", "data"):
                 if getattr(lv, kind):
                     s = variant()
                     getattr(_find_level(s, label), kind)[0].name = kw
-                    yield "invalid-name:%s:%s" % (kind[:-1] if kind != "data" else "data", "keyword" if kw in KEYWORDS else "not-symbolic"), "%s %r" % (label, kw), "reject", s
+                    yield "invalid-name:%s:%s" % (kind[:-1] if kind != "data" else "data", cls), "%s %r" % (label, kw), verdict, s
 
     # ---- composite member offsets
     for path, c in _composites(base):
@@ -184,11 +239,13 @@ def edits(base):
             e = s.type_by_name(t.name)
             e.values = e.values + [(e.values[0][0], e.values[0][1])]
             yield "duplicate-name:validValue", t.name, "reject", s
-            for kw in (KEYWORDS[0], BAD_NAMES[0]):
+            for kw, cls, verdict in _name_cases():
                 s = variant()
                 e = s.type_by_name(t.name)
+                oldv = e.values[0][0]
                 e.values = [(kw, e.values[0][1])] + e.values[1:]
-                yield "invalid-name:validValue:%s" % ("keyword" if kw in KEYWORDS else "not-symbolic"), "%s %r" % (t.name, kw), "reject", s
+                _retarget_value(s, t.name, oldv, kw)
+                yield "invalid-name:validValue:%s" % cls, "%s %r" % (t.name, kw), verdict, s
             for enc, verdict in (("nope", "reject"), (base.header_name(), "reject"), ("float", "reject"), ("uint8", "accept")):
                 s = variant()
                 e = s.type_by_name(t.name)
@@ -207,6 +264,11 @@ def edits(base):
             st = s.type_by_name(t.name)
             st.choices = st.choices + [(st.choices[0][0], (int(st.choices[0][1]) + 1) % w)]
             yield "duplicate-name:choice", t.name, "reject", s
+            for kw, cls, verdict in _name_cases():
+                s = variant()
+                st = s.type_by_name(t.name)
+                st.choices = [(kw, st.choices[0][1])] + list(st.choices[1:])
+                yield "invalid-name:choice:%s" % cls, "%s %r" % (t.name, kw), verdict, s
             for enc, verdict in (("nope", "reject"), ("int8", "reject"), ("char", "reject")):
                 s = variant()
                 s.type_by_name(t.name).enc = enc
@@ -304,15 +366,26 @@ def edits(base):
     # ---- names of types / messages
     free = [t for t in base.types if t.name not in protected]
     if free:
-        for kw in KEYWORDS + BAD_NAMES:
-            s = variant()
-            old = free[0].name
-            s.type_by_name(old).name = kw
-            for lv_label, lv in _levels(s):
-                for f in lv.fields:
-                    if f.type == old:
-                        f.type = kw
-            yield "invalid-name:type:%s" % ("keyword" if kw in KEYWORDS else "not-symbolic"), "%s -> %r" % (old, kw), "reject", s
+        firsts = []
+        for cls_ in (ir.T, ir.Enum, ir.SetT, ir.Comp):       # the first free type of every kind
+            firsts += [t for t in free if isinstance(t, cls_)][:1]
+        for t0 in firsts:
+            for kw, cls, verdict in [(k, "keyword", "reject") for k in KEYWORDS[2:]] + _name_cases():
+                s = variant()
+                old = t0.name
+                s.type_by_name(old).name = kw
+                _retarget(s, old, kw)
+                yield "invalid-name:%s:%s" % ({"T": "type", "Enum": "enum", "SetT": "set", "Comp": "composite"}[type(t0).__name__], cls), "%s -> %r" % (old, kw), verdict, s
+        structural = {base.header_name()} | {getattr(lv, "dim", None) or "groupSizeEncoding" for _, lv in _levels(base)} \
+            | {d.type for _, lv in _levels(base) for d in lv.data}
+        # composite members (inline type / ref / nested composite)
+        for path, c in _composites(base):
+            if path[0] in protected or path[0] in structural or not c.members:
+                continue        # header / dimension / length composites: their member names are part of other rules
+            for kw, cls, verdict in _name_cases():
+                s = variant()
+                _find_comp(s, path).members[-1].name = kw
+                yield "invalid-name:composite-member:%s" % cls, "%s %r" % ("/".join(path), kw), verdict, s
         if len(free) >= 2:
             s = variant()
             s.type_by_name(free[1].name).name = free[0].name.upper() if free[0].name.upper() != free[0].name else free[0].name.lower()
@@ -321,10 +394,10 @@ def edits(base):
             s.type_by_name(free[1].name).name = free[0].name
             yield "duplicate-name:type", free[0].name, "reject", s
     if base.msgs:
-        for kw in KEYWORDS[:2] + BAD_NAMES[:2]:
+        for kw, cls, verdict in _name_cases():
             s = variant()
             s.msgs[0].name = kw
-            yield "invalid-name:message:%s" % ("keyword" if kw in KEYWORDS else "not-symbolic"), repr(kw), "reject", s
+            yield "invalid-name:message:%s" % cls, repr(kw), verdict, s
         if len(base.msgs) >= 2:
             s = variant()
             s.msgs[1].name = s.msgs[0].name
